@@ -59,7 +59,7 @@ FT = ["operations", "machines", "jobs"]
 
 def gen_cases(ctx):
     rng = ctx.rng
-    for i in range(ctx.scale(3000, 80000)):
+    for i in range(ctx.scale(3000, 480000)):
         filt = i % 3 == 2
         c = gen_history_case(rng, classes=gen.FLOAT32_EXACT_POSITIVE if filt else gen.FLOAT32_EXACT,
                              max_jobs=rng.choice([2, 3, 4, 5]), max_machines=rng.choice([2, 3, 4]),
@@ -85,7 +85,7 @@ def gen_cases(ctx):
             c["observers"] = [{"type": t, "feature_types": None,
                                "form": rng.choice(["class", "enum", "string", "config"])} for t in ts]
         yield c
-    for i in range(ctx.scale(600, 12000)):
+    for i in range(ctx.scale(600, 72000)):
         inst = gen.gen_instance(rng, None, max_jobs=rng.choice([1, 2, 3, 4, 5]), max_machines=rng.choice([1, 2, 3, 4]))
         yield {"kind": "construct", "instance": inst, "seed": rng.randrange(2**31)}
 
